@@ -158,10 +158,13 @@ def traitsWalk (r : Reg) (id : Nat) : List (String × Nat × Nat) → Option Tra
         | some s => if s = 0 then none else some (plain s)
         | none => none
       else if kind = "vector" then
-        -- `_iovec_init`: every scalar of the table has a vector of `sizeof(struct iovec)`
-        match tableSize TypeTab.scalarSizes (id - TypeId._TypeVectorBase + TypeId._TypeScalarBase) with
-        | some _ => (abiSize "struct iovec").map plain
-        | none => none
+        -- `_iovec_init`: single entries, and a vector of `sizeof(vectorCType)` for every scalar of the table
+        match TypeTab.vectorExtra.find? (·.1 = id - TypeId._TypeVectorBase) with
+        | some (_, ct) => (abiSize ct).map plain
+        | none =>
+          match tableSize TypeTab.scalarSizes (id - TypeId._TypeVectorBase + TypeId._TypeScalarBase) with
+          | some _ => (abiSize TypeTab.vectorCType).map plain
+          | none => none
       else if kind = "interface" then (interfaceTraits r id).map (·.traits)
       else if kind = "dynamic" then (r.dyn[id - TypeTab.dynamicBase]?).map plain
       else if kind = "static" then
@@ -202,5 +205,34 @@ def aliasTypeid (r : Reg) (desc : Name) : Res (Nat × Nat) :=
 /-- `mpt_type_int` / `mpt_type_uint` -/
 def typeInt (size : Nat) : Nat := ((TypeTab.typeInt.find? (·.1 = size)).map (·.2)).getD 0
 def typeUint (size : Nat) : Nat := ((TypeTab.typeUint.find? (·.1 = size)).map (·.2)).getD 0
+
+/-! ### message/msgvalfmt.c: wire format codes of the scalar types -/
+
+/-- `mpt_msgvalfmt_size(fmt)`, `fmt` a byte -/
+def msgSize (fmt : Nat) : Nat :=
+  let f := if fmt % 256 ≥ TypeTab.MesgValByteOrderLittle then fmt % 256 - TypeTab.MesgValByteOrderLittle else fmt % 256
+  -- `fmt & Normal` (0x60) non-zero: size = (fmt & 0x1f) + 1, else big numbers in atoms of `BigAtom` bytes
+  if (f / 32) % 4 ≠ 0 then f % 32 + 1 else (f % 32 + 1) * TypeTab.MesgValBigAtom
+
+/-- `mpt_msgvalfmt_typeid(fmt)` -/
+def msgTypeid (fmt : Nat) : Res Nat :=
+  let b := fmt % 256
+  let order := if b ≥ TypeTab.MesgValByteOrderLittle then TypeTab.MesgValByteOrderLittle else 0
+  if order ≠ TypeTab.MesgValByteOrderNative then .err .BadValue
+  else
+    let size := msgSize b
+    let kind := ((b % 128) / 32) * 32          -- fmt & Normal
+    if kind = 0 then .err .BadType
+    else if kind = TypeTab.MesgValInteger then
+      let t := typeInt size
+      if t = 0 then .err .BadType else .ok t
+    else if kind = TypeTab.MesgValFloat then
+      if size = 4 then .ok 102 else if size = 8 then .ok 100 else if size = 16 then .ok 101 else .err .BadType
+    else
+      let t := typeUint size
+      if t = 0 then .err .BadType else .ok t
+
+/-- `mpt_msgvalfmt_code(type)`: `none` = -1 -/
+def msgCode (type : Nat) : Option Nat := (TypeTab.msgCodes.find? (·.1 = type)).map (·.2)
 
 end Mpt.Registry
